@@ -1003,3 +1003,80 @@ func c12r11(rc *core.RC) {
 		rc.Unknown("decoder/pool-takers", token.NoPos, "found %d calls of decoder.TakeRuntimeContext (confirmed: 4)", n)
 	}
 }
+
+// ---- C12.R12 the stream cursor goes back to zero only when the window moves forward with it ----
+
+// Strings decoded in stream mode are views of the window (Stream.buf). Consumed bytes are dropped by sliding the
+// window forward (s.buf = s.buf[s.cursor:]) and setting the cursor to zero relative to the new start: the bytes a
+// decoded string refers to are never written again. Setting cursor (or length) to zero while s.buf stays where it is
+// rewinds the window: the next read fills the same memory from the start and overwrites the strings decoded from it.
+// Every assignment of the constant zero to Stream.cursor or Stream.length in a method of Stream therefore stands
+// next to an assignment of s.buf, in the same block, whose right side is a re-slice from the cursor or a fresh make.
+func c12r12(rc *core.RC) {
+	p := rc.P
+	n := 0
+	for _, fd := range p.Funcs("decoder") {
+		if fd.Body == nil || fd.Recv == nil {
+			continue
+		}
+		info := p.Info(fd)
+		fn := p.FuncName(fd)
+		if !strings.Contains(fn, "(*Stream)") {
+			continue
+		}
+		isStreamField := func(e ast.Expr, name string) bool {
+			f := core.FieldOf(info, e)
+			return f != nil && f.Name() == name && f.Pkg() != nil && f.Pkg().Path() == core.PkgPaths["decoder"]
+		}
+		k := 0
+		ast.Inspect(fd.Body, func(m ast.Node) bool {
+			var list []ast.Stmt
+			switch b := m.(type) {
+			case *ast.BlockStmt:
+				list = b.List
+			case *ast.CaseClause:
+				list = b.Body
+			default:
+				return true
+			}
+			for _, st := range list {
+				as, ok := st.(*ast.AssignStmt)
+				if !ok || len(as.Lhs) != 1 || len(as.Rhs) != 1 || as.Tok != token.ASSIGN {
+					continue
+				}
+				if !isStreamField(as.Lhs[0], "cursor") && !isStreamField(as.Lhs[0], "length") {
+					continue
+				}
+				if v, isC := core.ConstInt(info, as.Rhs[0]); !isC || v != 0 {
+					continue
+				}
+				k++
+				n++
+				rc.Touch(fn)
+				key := fmt.Sprintf("%s/%s-set-to-zero#%d window-moves-with-it", fn, core.FieldOf(info, as.Lhs[0]).Name(), k)
+				moved := false
+				for _, other := range list {
+					o, isAs := other.(*ast.AssignStmt)
+					if !isAs || len(o.Lhs) != 1 || len(o.Rhs) != 1 || !isStreamField(o.Lhs[0], "buf") {
+						continue
+					}
+					switch r := core.Unparen(o.Rhs[0]).(type) {
+					case *ast.SliceExpr:
+						if isStreamField(r.X, "buf") && r.Low != nil && isStreamField(r.Low, "cursor") {
+							moved = true
+						}
+					case *ast.CallExpr:
+						if core.IsBuiltin(info, r, "make") {
+							moved = true
+						}
+					}
+				}
+				rc.Check(moved, key, as.Pos(), "the field is set to zero in a block that also moves the window (s.buf = s.buf[s.cursor:] or a fresh make): reset to zero while the window stays where it is, the next read overwrites the bytes that decoded strings refer to")
+			}
+			return true
+		})
+	}
+	if n < 1 {
+		rc.Unknown("decoder/stream-rewinds", token.NoPos, "no assignment of zero to Stream.cursor or Stream.length found (confirmed: Stream.reset)")
+	}
+}
